@@ -150,7 +150,7 @@ def dump(c, root):
     from pypyr.config import Config
     pp = c.platform_paths
     return {
-        'props': {k: to_pv(getattr(c, k)) for k in sorted(Config.all_writable_props)},
+        'props': {k: to_pv(getattr(c, k, NotImplemented)) for k in sorted(Config.all_writable_props)},
         'loaded': [unreal(str(p), root) for p in c.config_loaded_paths],
         'pyproject': to_pv(c.pyproject_toml),
         'skip_init': c.skip_init,
